@@ -489,7 +489,7 @@ func Run(sc *Scenario) *Result {
 			if ev == "Spawn" {
 				spawned[inst] = true
 			}
-			ok := spawned[inst]
+			ok := spawned[inst] || ev == "SpawnRefused" // a refused instance is never spawned
 			spawnedMu.Unlock()
 			if !ok {
 				return
